@@ -36,6 +36,9 @@ P = {
  "C09": (True, "model_checking", "trusted view (removals, additions with the validation hint rule, coin spends, lookups) defined in TLA+ as a projection of the validated machine state (Generator.tla); TLC validates the outputs of every trusted helper against it for every accepted generator in the C07/C08 streams",
          "for every accepted generator: additions_and_removals, get_coinspends_for_trusted_block (+ rebuilt generator re-validated), get_coinspends_with_conditions_for_trusted_block, get_puzzle_and_solution_for_coin (members and a non-member) and SpendBundle::additions are compared by TLC with the projection of the validated conditions",
          "CLVM execution results are oracle inputs; three defects found by this check were repaired (see known_findings.json)", "3 C09"),
+ "C16": (True, "model_checking", "symbolic exponent algebra (KeyAlgebra.tla) and point-encoding case table (PointEncoding.tla) model-checked by TLC; TLC-generated operation stores / table rows replayed with real keys and seeded random scripts and strings trace-validated (equality relation among concrete values = relation among symbolic values)",
+         "TLC checks the commuting laws (derive/synthetic/add vs public key), path helpers, serialisation identity and the flag-bit x coordinate-class acceptance table on the model; every TLC store is executed with real keys under two seed sets and every encoding class is realised on real strings; TLC trace validation compares the concrete equality relation, scalar arithmetic mod r and parser verdicts with the spec",
+         "curve arithmetic, subgroup test and hash-to-curve trusted to blst (oracle facts per string from raw blst); predicted differences accepted w.h.p. over two seed sets; hardened derivation / from_seed opaque", "3 C16"),
 }
 ORDER = ["C%02d" % i for i in range(1, 21)]
 PENDING_REASON = "check not built yet in this round (construction order DESIGN section 8); no claim is made"
